@@ -367,9 +367,20 @@ class Gen:
     def query(self):
         rng = self.rng
         names = sorted(self.all_names)
+        last = getattr(self, 'last_query', None)
+        if last is not None and rng.random() < 0.45:
+            # the very same buffer is asked again (an editor re-queries an unchanged file after
+            # the project changed underneath it): same text, same path, same positions
+            import json as _json
+            op = _json.loads(_json.dumps(last))
+            if self.policy == 'monotone' or rng.random() < 0.5:
+                self.advance(rng.choice([0, MS, 20 * MS, SEC, 4 * SEC]))
+            self.ops.append(op)
+            return
         b = world.gen_probe_buffer(rng, names, max_probes=rng.randint(3, 7))
-        op = {'op': 'query', 'code': b.text, 'path': None if rng.random() < 0.5 else 'probe_buf.py',
+        op = {'op': 'query', 'code': b.text, 'path': None if rng.random() < 0.4 else 'probe_buf.py',
               'project': self.project, 'probes': b.probes}
+        self.last_query = op
         # the project-wide file scan (get_references, rename, Project.search) reads files on its own
         tops_now = [d for d in self.mods if '.' not in d and self.mods[d]['kind'] != 'namespace']
         if tops_now and rng.random() < 0.6:
